@@ -30,16 +30,18 @@ type acct struct {
 }
 
 type world struct {
-	c      *chainx.Chain
-	bal    util.Uint160
-	probe  util.Uint160
-	users  map[string]neotest.SingleSigner // hex(script hash) -> signer
-	uhash  []util.Uint160
-	run    *hx.Run
-	wf     bool // case stays inside the properties' quantifier: monitors are active
-	prev   map[string]acct
-	supply *big.Int
-	nlock  int
+	c       *chainx.Chain
+	bal     util.Uint160
+	probe   util.Uint160
+	users   map[string]neotest.SingleSigner // hex(script hash) -> signer
+	uhash   []util.Uint160
+	run     *hx.Run
+	n       int
+	special []util.Uint160 // contract addresses used as holders: the Balance contract itself, Netmap
+	wf      bool           // case stays inside the properties' quantifier: monitors are active
+	prev    map[string]acct
+	supply  *big.Int
+	nlock   int
 	// C09 spec state: lock account -> (parent, until)
 	locks map[string]lockSpec
 }
@@ -54,8 +56,8 @@ func thisDir() string {
 	return filepath.Dir(f)
 }
 
-func newWorld(t testing.TB, run *hx.Run) *world {
-	c := chainx.New(t, 1)
+func newWorld(t testing.TB, run *hx.Run, n int) *world {
+	c := chainx.New(t, n)
 	c.DeployNNS()
 	nm := c.Compile("netmap")
 	c.Deploy(nm, []any{false, util.Uint160{}, util.Uint160{}, []any{c.Members[0].Account().PublicKey().Bytes()}, []any{}})
@@ -65,7 +67,7 @@ func newWorld(t testing.TB, run *hx.Run) *world {
 	c.RegisterNNS("balance", b.Hash)
 	pr := c.CompileDir(filepath.Join(thisDir(), "..", "probes", "caller"))
 	c.Deploy(pr, nil)
-	w := &world{c: c, bal: b.Hash, probe: pr.Hash, users: map[string]neotest.SingleSigner{}, run: run,
+	w := &world{c: c, n: n, bal: b.Hash, probe: pr.Hash, special: []util.Uint160{b.Hash, nm.Hash}, users: map[string]neotest.SingleSigner{}, run: run,
 		prev: map[string]acct{}, supply: new(big.Int), locks: map[string]lockSpec{}}
 	for i := 0; i < nUsers; i++ {
 		u := c.User(fmt.Sprintf("U%d", i))
@@ -153,6 +155,8 @@ func (w *world) execOp(line string) string {
 	var signers []neotest.Signer
 	if sig == "alpha" {
 		signers = append(signers, w.c.Alpha)
+	} else if sig == "cmt" {
+		signers = append(signers, w.c.Cmt) // committee majority n/2+1: NOT the Alphabet account when n >= 3
 	} else if sig != "-" {
 		for _, h := range strings.Split(sig, ",") {
 			u, ok := w.users[h]
@@ -474,8 +478,10 @@ type gen struct {
 func (g *gen) addr20() string { // a user, the probe or an existing/lock account
 	r := g.rng.IntN(10)
 	switch {
-	case r < 6:
+	case r < 5:
 		return hx.Hex(hx.Pick(g.rng, g.w.uhash).BytesBE())
+	case r < 6:
+		return hx.Hex(hx.Pick(g.rng, g.w.special).BytesBE())
 	case r < 7:
 		return hx.Hex(g.w.probe.BytesBE())
 	default:
@@ -656,8 +662,14 @@ func TestRun(t *testing.T) {
 		var w *world
 		for _, l := range run.ReplayLines() {
 			if strings.HasPrefix(l, "case ") {
-				w = newWorld(t, run)
 				f := strings.Fields(l)
+				n := 1
+				for _, a := range f[2:] {
+					if strings.HasPrefix(a, "n=") {
+						fmt.Sscanf(a, "n=%d", &n)
+					}
+				}
+				w = newWorld(t, run, n)
 				w.wf = len(f) > 2 && f[2] == "wf"
 				run.Case(f[1], f[2:]...)
 				continue
@@ -674,18 +686,28 @@ func TestRun(t *testing.T) {
 		cases, nops = 60, 300
 	}
 	for ci := 0; ci < cases; ci++ {
-		w := newWorld(t, run)
+		n := 1
+		switch ci % 6 {
+		case 2:
+			n = 3 // Alphabet 3-of-3, committee majority 2-of-3
+		case 4:
+			n = 6 // Alphabet 5-of-6, committee majority 4-of-6
+		}
+		w := newWorld(t, run, n)
 		w.wf = ci%4 != 3
 		kind := "wf"
 		if !w.wf {
 			kind = "nonwf"
 		}
-		run.Case(fmt.Sprintf("s%d.%d.%d", run.Seed, run.Shard, ci), kind)
+		run.Case(fmt.Sprintf("s%d.%d.%d", run.Seed, run.Shard, ci), kind, fmt.Sprintf("n=%d", n))
 		g := &gen{w, run.Rand(ci)}
 		var epoch int64 = 1
 		var first []string
 		for i := 0; i < nops; i++ {
 			l := g.next(&epoch)
+			if w.n > 1 && strings.HasPrefix(l, "op alpha ") && g.rng.IntN(5) == 0 {
+				l = "op cmt " + strings.TrimPrefix(l, "op alpha ") // the majority account must not pass for the Alphabet
+			}
 			obs := w.execOp(l)
 			run.Op(l, obs)
 			if i < 6 {
